@@ -37,7 +37,7 @@ pub struct BlockCase {
     pub form: PrefixForm,
 }
 
-fn block_strategy() -> impl Strategy<Value = BlockCase> {
+pub fn block_strategy() -> impl Strategy<Value = BlockCase> {
     let version = prop_oneof![5 => Just(1u64), 3 => Just(0u64), 1 => Just(2u64), 1 => Just(3u64), 1 => any::<u64>()];
     let codec = prop_oneof![4 => Just(0x55u64), 4 => Just(0x70u64), 1 => Just(0x71u64), 1 => any::<u64>()];
     let mh = prop_oneof![
@@ -71,7 +71,7 @@ fn block_strategy() -> impl Strategy<Value = BlockCase> {
 }
 
 /// Independent digest computation: sha2 crate for SHA2-256/512, the multihash code table for the rest.
-fn digest_for(code: u64, data: &[u8]) -> Option<Vec<u8>> {
+pub fn digest_for(code: u64, data: &[u8]) -> Option<Vec<u8>> {
     match code {
         0x12 => Some(Sha256::digest(data).to_vec()),
         0x13 => Some(Sha512::digest(data).to_vec()),
@@ -80,7 +80,7 @@ fn digest_for(code: u64, data: &[u8]) -> Option<Vec<u8>> {
 }
 
 /// Independent prefix parser following the statement of the wire format: four minimal-or-not varints, nothing else.
-fn parse_prefix(b: &[u8]) -> Option<(u64, u64, u64, u64)> {
+pub fn parse_prefix(b: &[u8]) -> Option<(u64, u64, u64, u64)> {
     fn rd(b: &[u8]) -> Option<(u64, &[u8])> {
         let mut v: u64 = 0;
         for (i, byte) in b.iter().enumerate() {
@@ -112,8 +112,9 @@ fn parse_prefix(b: &[u8]) -> Option<(u64, u64, u64, u64)> {
     Some((a, c, d, e))
 }
 
-fn run_block(c: &BlockCase) -> CaseResult {
-    let peer = crate::common::peer_from_seed(20);
+/// The (prefix, data) pair a case stands for, whether the data was altered after the honest sender computed its CID, and the
+/// unaltered data.
+pub fn build_block(c: &BlockCase) -> (Vec<u8>, Vec<u8>, bool, Vec<u8>) {
     let original = fill_bytes(c.data_seed, c.data_len as usize);
     let true_len = digest_for(c.mh_code, &original).map(|d| d.len() as u64);
     let declared = c.declared_len.or(true_len).unwrap_or(32);
@@ -153,6 +154,28 @@ fn run_block(c: &BlockCase) -> CaseResult {
         }
         _ => false,
     };
+    (prefix, data, tampered, original)
+}
+
+/// Must a block with this (well-formed) prefix be delivered / dropped? (None = either is acceptable)
+pub fn expectation(prefix: &[u8], data: &[u8]) -> Option<bool> {
+    let Some((version, codec, code, declared_len)) = parse_prefix(prefix) else { return Some(false) };
+    let digest = digest_for(code, data);
+    let version_ok = version == 0 || version == 1;
+    let computable = digest.as_ref().map(|d| d.len() <= 64).unwrap_or(false);
+    let v0_ok = version != 0 || (codec == 0x70 && code == 0x12);
+    if !version_ok || !computable || !v0_ok || declared_len > 255 {
+        return Some(false);
+    }
+    if Some(declared_len) == digest.as_ref().map(|d| d.len() as u64) {
+        return Some(true);
+    }
+    None
+}
+
+fn run_block(c: &BlockCase) -> CaseResult {
+    let peer = crate::common::peer_from_seed(20);
+    let (prefix, data, tampered, original) = build_block(c);
     let got = bs::block_to_response(&peer, prefix.clone(), data.clone());
     let parsed = parse_prefix(&prefix);
     let mut ok = CaseOk::trivial().class_if(tampered, "tampered");
@@ -402,4 +425,5 @@ pub fn run(ctx: &mut Ctx) {
         .collect();
     ctx.enumerate("tiny-blocks", false, tiny, run_batch);
     ctx.campaign("batching-big", CampaignCfg::new(t.pick(320, 12_000)).shards(16).shrink_iters(300), || batch_strategy(14, true), run_batch);
+    ctx.campaign("inbound-messages", CampaignCfg::new(t.pick(800, 20_000)).shards(16).shrink_iters(40), super::c20_nodes::strategy, super::c20_nodes::run_case);
 }
